@@ -119,6 +119,11 @@ pub struct KnownFinding {
 }
 
 pub fn load_known() -> Vec<KnownFinding> {
+    // development aid (never set by the registered commands): report everything, so that replay
+    // files for the known findings can be regenerated
+    if std::env::var("MC_IGNORE_KNOWN").is_ok() {
+        return Vec::new();
+    }
     let p = verif_root().join("known_findings.json");
     match std::fs::read_to_string(&p) {
         Ok(s) => serde_json::from_str::<Vec<KnownFinding>>(&s).unwrap_or_else(|e| {
